@@ -48,7 +48,7 @@ type Case struct {
 	MutOther bool   `json:"mutother"` // mutate an item of //p2 instead (must not re-run t)
 }
 
-var hard = map[string]bool{"bound-method": true, "valkind": true, "tuple-slice": true, "strset": true, "cyclic-strset": true, "signature": true, "kwonly": true, "varargs": true, "closure-pair": true, "wrapped-twice": true, "recursive": true, "mutual": true, "closure": true, "closure2": true, "default": true, "nested": true, "biglist": true, "bigdict": true, "bigset": true, "cyclic": true,
+var hard = map[string]bool{"order": true, "bound-method": true, "valkind": true, "tuple-slice": true, "strset": true, "cyclic-strset": true, "signature": true, "kwonly": true, "varargs": true, "closure-pair": true, "wrapped-twice": true, "recursive": true, "mutual": true, "closure": true, "closure2": true, "default": true, "nested": true, "biglist": true, "bigdict": true, "bigset": true, "cyclic": true,
 	"pre-vf": true, "pre-cache": true, "pre-host": true, "pre-os": true}
 
 // render returns definition text and the use expression of item i (with name suffix sfx).
@@ -124,6 +124,11 @@ func (it Item) render(i int, sfx string, mutated bool) (def, use string) {
 		return fmt.Sprintf("def un%s(x):\n    return %s(x)\n", n, k), "un" + n + "([1, 2])"
 	case "builtin-global":
 		return fmt.Sprintf("fm%s = %s\n", n, k), "fm" + n + "(\"a\")"
+	case "order":
+		// K = "definitions|expression": two names bound in one order and used in an expression; the mutation swaps the
+		// definitions together with their uses (compiled code refers to names by position)
+		f := strings.SplitN(k, "|", 2)
+		return strings.ReplaceAll(f[0], "@", n) + "\n", strings.ReplaceAll(f[1], "@", n)
 	case "bound-method":
 		// K = "receiver|method|call arguments": a global bound to a method of a value; the mutation changes the receiver
 		f := strings.SplitN(k, "|", 3)
@@ -345,6 +350,20 @@ var sigPairs = [][2]string{
 	{"a, *, c=2|return [a, c]|1", "a, *, c=3|return [a, c]|1"},
 }
 
+// the same pairs of names and values in another order of definition, uses swapped too: every pair evaluates differently
+var orderPairs = [][2]string{
+	// module-level globals
+	{"OA@ = 1\nOB@ = 2\ndef og@():\n    return OA@ - OB@|og@()", "OB@ = 2\nOA@ = 1\ndef og@():\n    return OB@ - OA@|og@()"},
+	// free variables of a closure
+	{"def omk@(x, y):\n    def inner():\n        return x - y\n    return inner\noc@ = omk@(1, 2)|oc@()", "def omk@(x, y):\n    def inner():\n        return y - x\n    return inner\noc@ = omk@(1, 2)|oc@()"},
+	// universal names
+	{"def ou@(v):\n    return [len, str][0](v)|ou@([1, 2])", "def ou@(v):\n    return [str, len][0](v)|ou@([1, 2])"},
+	// a builtin and the string that spells its name (both already occur in the file, so that the tables the compiled
+	// code indexes do not move)
+	{"OX@ = \"len\"\nOY@ = len\nON@ = len\ndef on@():\n    return [ON@]|on@()", "OX@ = \"len\"\nOY@ = len\nON@ = \"len\"\ndef on@():\n    return [ON@]|on@()"},
+	{"OX@ = \"str\"\nOY@ = str\nON@ = [OY@, 1]\ndef on@():\n    return ON@|on@()", "OX@ = \"str\"\nOY@ = str\nON@ = [OX@, 1]\ndef on@():\n    return ON@|on@()"},
+}
+
 // bound methods: same method, another receiver
 var boundPairs = [][2]string{
 	{"\"abc\"|upper|", "\"abd\"|upper|"},
@@ -363,7 +382,7 @@ var valkindPairs = [][2]string{
 	{"b\"abc\".elems()", "b\"abd\".elems()"}, {"\"abc\".codepoints()", "\"abc\".elems()"},
 }
 
-var kinds = []string{"bound-method", "valkind", "closure-pair", "wrapped-twice", "signature", "kwonly", "varargs", "tuple-slice", "strset", "cyclic-strset", "const", "deepconst", "func", "recursive", "mutual", "default", "closure", "closure2", "nested", "lambda", "compr", "loop", "universal", "builtin-global",
+var kinds = []string{"order", "bound-method", "valkind", "closure-pair", "wrapped-twice", "signature", "kwonly", "varargs", "tuple-slice", "strset", "cyclic-strset", "const", "deepconst", "func", "recursive", "mutual", "default", "closure", "closure2", "nested", "lambda", "compr", "loop", "universal", "builtin-global",
 	"biglist", "bigdict", "bigset", "biginline", "cyclic", "pre-vf", "pre-host", "pre-package", "pre-cache", "pre-flag", "pre-builtins", "recursive", "closure", "const"}
 
 var pairs = [][2]string{{"7", "8"}, {"300", "65580"}, {"256", "257"}, {"65535", "65536"}, {"\"a\"", "\"b\""}, {"(1, 2)", "(1, 3)"}, {"[1, 300]", "[1, 301]"}, {"1.5", "2.5"}, {"None", "False"}, {"{\"k\": 1}", "{\"k\": 2}"}, {"b\"x\"", "b\"y\""}, {"12345678901234567890", "12345678901234567891"},
@@ -382,6 +401,9 @@ func genItem(t *rapid.T, label string) Item {
 		it.K, it.K2 = p[0], p[1]
 	case "signature":
 		p := rapid.SampledFrom(sigPairs).Draw(t, "sig")
+		it.K, it.K2 = p[0], p[1]
+	case "order":
+		p := rapid.SampledFrom(orderPairs).Draw(t, "order")
 		it.K, it.K2 = p[0], p[1]
 	case "bound-method":
 		p := rapid.SampledFrom(boundPairs).Draw(t, "bound")
